@@ -149,7 +149,7 @@ class CbmcVariant:
         open(self.c, "w").write(txt)
         # byte/element copy helpers get their own (larger) unwinding bound: --unwindset
         helpers = set(re.findall(r"static void (vp_(?:copy|zero)_\w+)\(", txt))
-        self.helper_loops = ["vp_memcpy.0", "vp_memmove.0", "vp_memmove.1", "vp_memset.0", "vp_str_copy.0", "vp_str_move.0", "vp_str_move.1"]
+        self.helper_loops = ["vp_race_acc.0", "vp_memcpy.0", "vp_memmove.0", "vp_memmove.1", "vp_memset.0", "vp_str_copy.0", "vp_str_move.0", "vp_str_move.1"]
         for hname in sorted(helpers):
             self.helper_loops += [hname + ".0"] + ([hname + ".1"] if hname.startswith("vp_copy_") else [])
         funcs, _ = g.reachable(entries)
@@ -167,6 +167,9 @@ class CbmcVariant:
         rc, so, se, dt = run(["goto-cc", self.c, "-o", self.gb] + inc + cdefs, timeout=600)
         if rc != 0:
             raise RuntimeError("goto-cc failed for %s:\n%s" % (self.c, (so + se)[-3000:]))
+        rc2, so2, se2, dt2 = run(["goto-instrument", "--show-loops", self.gb], timeout=300)
+        existing = set(re.findall(r"Loop (\S+):", so2))
+        self.helper_loops = [l for l in self.helper_loops if l in existing]
         rc, so, se, dt = run(["goto-cc", self.c, "-o", self.gbw, "-DVP_WITNESS"] + inc + cdefs, timeout=600)
         if rc != 0:
             raise RuntimeError("goto-cc (witness) failed:\n%s" % (so + se)[-3000:])
